@@ -1,10 +1,10 @@
 package main
 
 import (
-	"os"
 	"fmt"
 	"go/constant"
 	"go/types"
+	"os"
 	"sort"
 	"strings"
 
@@ -104,6 +104,7 @@ func checkC08(c *Ctx) {
 		})
 	}
 	c.importRules(configIntactRules, []string{"R3.7"}, "R8.10") // axis mappings (notes, offsets) are read from an unmodified copy of the parsed configuration
+	c.importRules(repetitionRules, []string{"R6.17"}, "R8.11")  // the first report of an axis is not dropped as a repetition of a position it never reported
 	c.MinCount("R8.1", 5)
 	c.MinCount("R8.4", 1)
 	c.MinCount("R8.5", 3)
